@@ -9,12 +9,18 @@ Local Open Scope bool_scope.
 Section C03defs.
 Variable K : fld.
 
-(* the context with the source value / initial-condition parameters replaced *)
+(* the context with the source value / initial-condition parameters replaced.
+   Every component position has ONE pair (a, b): (Isc, Voc) for sources and for
+   C / L with an initial condition; for a mutual inductance K the pair is the
+   initial currents (i01, i02) of its two coupled inductors, which its stamp
+   reads (pI01, pI02) - pIsc/pVoc are not read by the K stamp and pI01/pI02 by
+   no other stamp.  Killing / scaling the initial conditions acts on the K
+   position together with its inductors (K reads elements[L].cpt.i0). *)
 Definition with_src (c : sctx K) (a b : K) : sctx K :=
   SCtx K (kind c) (typ c) (p0 c) (p1 c) (p2 c) (p3 c) (c0 c) (c1 c)
        (bown c) (bextra c) (bctrl c) (bL1 c) (bL2 c)
        (has_ic c) (ctrl_is_vsrc c) (has_arg1 c) (tp_has_src c)
-       (fun n => match n with pIsc => a | pVoc => b | _ => par c n end).
+       (fun n => match n with pIsc | pI01 => a | pVoc | pI02 => b | _ => par c n end).
 
 Definition sres3 (R : list (upd K) -> list (upd K) -> list (upd K) -> Prop) (s1 s2 s12 : sres K) : Prop :=
   match s1, s2, s12 with
